@@ -101,6 +101,36 @@ theorem setOffset_refines {s : SingleApp} (h : SingleApp.Inv s) (hc : s.closed =
   refine ⟨e, ?_, i⟩
   simp [ByteLog.setOffset, hle, a]
 
+/-- **In-memory rewind, exactly.** When the target lies in the part of the log that has not reached the file
+(`fileOffset ≤ off < offset`), `SetOffset` only shortens the write buffer — and it keeps the `flushed` bytes that
+retryable sync still holds at the front of the buffer (`Flush` without a successful `Sync`): the buffer becomes
+`buf[: flushed + (off - fileOffset)]`, file, `fileOffset` and `flushed` are untouched, `Offset()` is `off` and the
+next `Append` starts at `off`.  (Cutting the buffer to `off - fileOffset` instead — the same thing only while
+`flushed = 0` — is the regression of seeded change c17-a; see `setOffset_flushedPrefix_witness`.) -/
+theorem setOffset_inMemory_exact {s : SingleApp} (h : SingleApp.Inv s) (hc : s.closed = false)
+    (hro : s.readOnly = false) (off : Nat) (hlo : s.fileOffset ≤ off) (hlt : off < s.offset) :
+    (s.setOffset (off : Int)).2 = none ∧
+    (s.setOffset (off : Int)).1 = { s with buf := s.buf.take (s.flushed + (off - s.fileOffset)) } ∧
+    (s.setOffset (off : Int)).1.offset = off ∧
+    (∀ bs : Bytes, bs ≠ [] → ((s.setOffset (off : Int)).1.append bs true).2.1 = off) := by
+  have hfl := h.fl_le
+  have hneg : ¬ ((off : Int) < 0) := by omega
+  have hoff : s.offset = s.fileOffset + (s.buf.length - s.flushed) := rfl
+  have h1 : ¬ (off > s.offset) := by omega
+  have h2 : ¬ (off = s.offset) := by omega
+  have h3 : off ≥ s.fileOffset := hlo
+  have hst : (s.setOffset (off : Int)) =
+      ({ s with buf := s.buf.take (s.buf.length - (s.offset - off)) }, none) := by
+    simp only [setOffset, hc, hro, hneg, Bool.false_eq_true, ↓reduceIte, Int.toNat_natCast, h1, h2, h3]
+  have hlen : s.buf.length - (s.offset - off) = s.flushed + (off - s.fileOffset) := by omega
+  rw [hst, hlen]
+  refine ⟨rfl, rfl, ?_, ?_⟩
+  · simp only [offset, List.length_take]; omega
+  · intro bs hne
+    have : bs.isEmpty = false := by cases bs <;> simp_all
+    simp only [append, hc, hro, this, Bool.false_eq_true, ↓reduceIte, offset, List.length_take]
+    omega
+
 theorem setOffset_rejects {s : SingleApp} (h : SingleApp.Inv s) (off : Nat) (hgt : (abs s).size < off) :
     (s.setOffset (off : Int)).1 = s ∧ (s.setOffset (off : Int)).2 ≠ none ∧ (abs s).setOffset off = none := by
   obtain ⟨a, b⟩ := setOffset_rejects_beyond h off hgt
@@ -205,6 +235,26 @@ theorem readAt_after_failed_sync_witness :
     (abs wSync).bytes = [1, 2, 3, 4, 5, 6, 7, 8] ∧
     wSync.readAt (some 8) 0 = ([1, 2, 3, 4, 5, 6, 4, 5], none) := by
   refine ⟨by decide, by decide⟩
+
+/-- default options (retryable + auto sync), 64-byte buffer: `Append("AAAA"); Flush; Append("BBBBBBCCCCCC")` — the
+flushed `AAAA` is in the file AND still at the front of the buffer (`flushed = 4`), 12 bytes are buffered only. -/
+def wRetry : SingleApp :=
+  run (create { cap := 64, retryableSync := true, autoSync := true, readOnly := false } 0 [])
+    [.append [65, 65, 65, 65] true, .flush, .append [66, 66, 66, 66, 66, 66, 67, 67, 67, 67, 67, 67] true]
+
+/-- **The state in which the two ways of computing the in-memory rewind differ is reachable** (hypotheses of
+`setOffset_inMemory_exact` with `flushed > 0`): `SetOffset(10)` on `wRetry` takes the in-memory branch, the log
+is `AAAABBBBBB`, `Offset()` is 10 and the next `Append` returns 10 — whereas a buffer cut to
+`newOffset - fileOffset` bytes would report `Offset() = 6`.  The harness reaches this state in every run (op
+words `append; flush; append; setoff` of the small-scope enumeration, profile "buffer tail"). -/
+theorem setOffset_flushedPrefix_witness :
+    SingleApp.Inv wRetry ∧ wRetry.flushed = 4 ∧ wRetry.fileOffset = 4 ∧ wRetry.offset = 16 ∧
+    (wRetry.setOffset 10).1.offset = 10 ∧
+    (abs (wRetry.setOffset 10).1).bytes = [65, 65, 65, 65, 66, 66, 66, 66, 66, 66] ∧
+    ((wRetry.setOffset 10).1.append [68, 68] true).2.1 = 10 ∧
+    ({ wRetry with buf := wRetry.buf.take (10 - wRetry.fileOffset) } : SingleApp).offset = 6 := by
+  refine ⟨?_, by decide, by decide, by decide, by decide, by decide, by decide, by decide⟩
+  exact (run_wf _ _ ⟨openFile_inv _ _ _, fun _ => by decide⟩ (by simp [ValidOps])).1
 
 /-! ### non-vacuity -/
 
